@@ -551,7 +551,8 @@ FutCheck(sh) ==
 ViolPoll(sh, ev) ==
   LET s == ev.s IN
   If(~sh.inDisp, {<<"C10", "future_polled_outside_dispatch">>})
-  \cup If(sh.inDisp /\ (sh.life[s] # "in" \/ ~sh.en[s]),
+  \* (the executor's own run loop goes on after a callback / poll of it removed or disabled it: Latitude)
+  \cup If(sh.inDisp /\ ~Latitude(sh, s) /\ ~sh.fuzzy[s] /\ (sh.life[s] # "in" \/ ~sh.en[s]),
           {<<"C10", "future_polled_while_executor_not_enabled">>, <<"C07", "cb_while_disabled">>})
   \cup If(ev.f \in DOMAIN sh.fut /\ sh.fut[ev.f].st = "done", {<<"C10", "completed_future_polled_again">>})
 
